@@ -274,6 +274,12 @@ def load_one(lit: LineIterator, norm_threshold: float = 1e-4) -> dict:
         "mo": mo,
     }
     if atcharges is not None:
+        if len(atcharges["mulliken"]) != len(atnums):
+            raise LoadError(
+                f"The number of charges ({len(atcharges['mulliken'])}) "
+                f"is inconsistent with the number of atoms ({len(atnums)}).",
+                lit,
+            )
         result["atcharges"] = atcharges
     _fix_molden_from_buggy_codes(result, lit, norm_threshold)
     return result
